@@ -228,5 +228,27 @@ theorem underLease_spec (s : State) (n ttl t : Nat) (post : List Ev) (h : ∀ e 
         simp only [List.length_append, List.length_cons, List.length_nil]
         omega
 
+/-- the tags of the requests handed to `send_request` over a history, in order -/
+def requestedTags : List Ev → List Nat
+  | [] => []
+  | .request tag _ :: evs => tag :: requestedTags evs
+  | .lease .. :: evs => requestedTags evs
+
+theorem step_accounts (s : State) (e : Ev) :
+    (accepted (step s e) ++ (step s e).rejected).Perm (accepted s ++ s.rejected ++ requestedTags [e]) := by
+  cases e with
+  | request tag t =>
+    simp only [step, requestedTags]
+    rcases h : allow s.lease (max s.now t) with ⟨ok, l'⟩
+    rw [List.perm_iff_count]
+    intro a
+    cases ok
+    · simp only [Bool.false_eq_true, if_false]
+      split <;> simp [accepted, List.count_append, List.count_cons] <;> omega
+    · simp [accepted, List.count_append, List.count_cons]; omega
+  | lease n ttl t =>
+    simp only [step, requestedTags, accepted, List.append_nil]
+    rw [drain_conserves]
+
 end RSocketModel.Lease
 
